@@ -162,11 +162,17 @@ def defjvp(fun, *jvpfuns, **kwargs):
     defjvp_argnums(fun, jvp_argnums)
 
 
+def without_out(kwargs):
+    # A caller's out= buffer holds the primal result: the tangent, computed by calling the
+    # same function again, must not be written into it.
+    return {k: v for k, v in kwargs.items() if k != "out"} if "out" in kwargs else kwargs
+
+
 def translate_jvp(jvpfun, fun, argnum):
     if jvpfun is None:
         return lambda g, ans, *a, **k: vspace(ans).zeros()
     elif jvpfun == "same":
-        return lambda g, ans, *args, **kwargs: fun(*subval(args, argnum, g), **kwargs)
+        return lambda g, ans, *args, **kwargs: fun(*subval(args, argnum, g), **without_out(kwargs))
     elif callable(jvpfun):
         return jvpfun
     else:
@@ -175,7 +181,7 @@ def translate_jvp(jvpfun, fun, argnum):
 
 def def_linear(fun):
     """Flags that a function is linear wrt all args"""
-    defjvp_argnum(fun, lambda argnum, g, ans, args, kwargs: fun(*subval(args, argnum, g), **kwargs))
+    defjvp_argnum(fun, lambda argnum, g, ans, args, kwargs: fun(*subval(args, argnum, g), **without_out(kwargs)))
 
 
 # -------------------- vector behavior --------------------
